@@ -724,7 +724,51 @@ func TestC18(t *testing.T) {
 		Assumptions:     []string{"independent WKB writer", "exact rational ring-simplicity test", "closed lines with repeated consecutive vertices or < 4 positions have undefined ring status and are skipped for IgnoreOrder (counted)"},
 		Gen:             c18Gen,
 		Check:           c18Check,
+		Enumerate:       c18Enumerate,
 	})
+}
+
+// c18Enumerate: wide collections (127..257 distinct members): B lists A's
+// members in another order, C is B with one member replaced by a copy of
+// another (the multiset differs only in two multiplicities).
+func c18Enumerate(cx *h.Ctx, yield func(C18Case)) []string {
+	for _, k := range []int{127, 128, 129, 255, 256, 257} {
+		for _, typ := range []string{gm.MultiPoint, gm.MultiLineString, gm.MultiPolygon, gm.GeometryCollection} {
+			if typ == gm.MultiPolygon && k > 129 {
+				continue // (the brute-force oracle tests every ring pairing for exact simplicity: seconds per comparison)
+			}
+			a := gm.G{T: typ}
+			for i := 0; i < k; i++ {
+				x := float64(10 * i)
+				var m gm.G
+				switch typ {
+				case gm.MultiPoint:
+					m = gm.G{T: gm.Point, Co: gm.Fs(x, float64(i%7))}
+				case gm.MultiLineString:
+					m = gm.G{T: gm.LineString, Co: gm.Fs(x, 0, x+3, float64(1+i%5))}
+				case gm.MultiPolygon:
+					m = gm.G{T: gm.Polygon, Rings: [][]gm.F{gm.Fs(x, 0, x+4, 0, x+4, 4, x, 4, x, 0)}}
+				default:
+					m = []gm.G{{T: gm.Point, Co: gm.Fs(x, 1)}, {T: gm.LineString, Co: gm.Fs(x, 2, x+1, 3)}, {T: gm.MultiPoint, Mem: []gm.G{{T: gm.Point, Co: gm.Fs(x, 5)}}}}[i%3]
+				}
+				a.Mem = append(a.Mem, m)
+			}
+			for variant := 0; variant < 2; variant++ {
+				b := a.Clone()
+				if variant == 0 { // reversed order
+					for i, j := 0, k-1; i < j; i, j = i+1, j-1 {
+						b.Mem[i], b.Mem[j] = b.Mem[j], b.Mem[i]
+					}
+				} else { // rotated by a third
+					b.Mem = append(append([]gm.G{}, a.Clone().Mem[k/3:]...), a.Clone().Mem[:k/3]...)
+				}
+				c := b.Clone()
+				c.Mem[k-1] = c.Mem[(k-1)%3].Clone()
+				yield(C18Case{A: a, B: b, C: c, How: "wide-reordered", HowC: "wide-one-member-replaced-by-a-copy-of-another", Tol: 0.25})
+			}
+		}
+	}
+	return []string{"collections of 127..257 distinct members (MultiPoint, MultiLineString, MultiPolygon, GeometryCollection): reordered, and with one member replaced by a copy of another"}
 }
 
 // extremeRing: the geometry has a closed line/ring whose non-zero XY magnitudes
